@@ -5,6 +5,7 @@ import Proofs.InterpCalls
 import Proofs.InterpEnum
 import Proofs.InterpReturn
 import Proofs.CallShape
+import Proofs.CallShapeMore
 
 /-!
   C15 — Callable model elements behave as their OAL bodies specify.
@@ -85,10 +86,14 @@ theorem self_bound (C : Ctx) (rec : Oracle) :
         readField C rec i name c = invoke rec (.derived i name) f.body [] (.inst i) c) ∧
     (∀ kind kw self, (mkFrame kind kw self).self = self) ∧
     -- class-based operation / bridge: `NS::name(args)`
-    (∀ k ns name args c c2 f kw, (k = .implicit ns ∨ k = .classOp ns ∨ k = .bridge ns) →
+    (∀ k ns name args c c2 f kw, (k = .implicit ns ∨ k = .bridge ns) →
         evalArgs rec args c = some (.ok (kw, c2)) → resolveNs C ns name = some f →
         evalStep C rec (.call k name args) c =
           invoke rec (match f.kind with | .bridge _ => .function | _ => .operation) f.body kw .none c2) ∧
+    -- `transform KL::name(args)`: the class-based operation of the class KL only
+    (∀ ns name args c c2 f kw, evalArgs rec args c = some (.ok (kw, c2)) →
+        findCallable C (fun f => f.kind = .classOp ns ∧ f.name = name) = some f →
+        evalStep C rec (.call (.classOp ns) name args) c = invoke rec .operation f.body kw .none c2) ∧
     (∀ kw st, evalStep C rec .self { fr := mkFrame .operation kw .none, st := st }
         = some (.ok (.none, { fr := mkFrame .operation kw .none, st := st }))) ∧
     -- function: `::name(args)`
@@ -100,6 +105,7 @@ theorem self_bound (C : Ctx) (rec : Oracle) :
    fun _ _ _ _ _ _ _ _ _ h1 h2 h3 => callInst_runs_with_self h1 h2 h3,
    fun _ _ _ _ h1 h2 => derived_read h1 h2, fun _ _ _ => rfl,
    fun _ _ _ _ _ _ _ _ hk ha hf => call_ns_runs hk ha hf,
+   fun _ _ _ _ _ _ _ ha hf => call_classOp_runs ha hf,
    fun kw st => eval_self_classOp C rec kw st,
    fun _ _ _ _ _ _ ha hf => call_function_runs_unbound ha hf,
    fun _ _ _ => eval_self_function rfl⟩
@@ -459,10 +465,9 @@ end PyxProps.C15
   / constructor order / symbol table, returning something else than `w.return_value`, following R56 the other way or another
   type-to-conversion table changes the IR and breaks these theorems before any test runs; a statement outside the translated
   fragment makes the generator raise (broken tie).  NOT in these equations: the meaning of the atoms (listed at the head of
-  Proofs/CallShape.lean: hand-modelled, digest-checked environment, validated by correspondence); where `Spec` is LOOSER than
-  the source the theorem carries the hypothesis that makes them agree (`Spec` resolves `transform KL::op()` and `bridge EE::f()`
-  like `NS::f()`, bridge first then class operation; the source asks for kind 'class' resp. 'external entity' only, and evaluates
-  a class invocation's parameters AFTER the look-up).
+  Proofs/CallShape.lean: hand-modelled, digest-checked environment, validated by correspondence).  Building this tie showed
+  `Spec` LOOSER than the source in one clause — `transform KL::op()` was resolved like `NS::op()` (bridge first) and its
+  parameters evaluated before the look-up; `Spec` was tightened to the source (round 2, see the second appended section).
   ========================================================================================================== -/
 namespace PyxProps.C15
 open Pyx.Interp Pyx.CShape Pyx.Gen.CallShape
@@ -500,14 +505,14 @@ theorem namespace_calls_as_in_source (C : Ctx) (u : String → Option Sym) (rec 
       evalStep C rec (.call (.implicit ns) name args) =
         handlerE C gen (domOf C u) rec (invNode C gen (domOf C u) rec [("namespace", ns), ("action_name", name)] none args)
           accept_ImplicitInvocationNode) ∧
-    (findCallable C (fun f => f.kind = .bridge ns ∧ f.name = name) = none → (findClass C ns).isSome = true →
+    ((findClass C ns).isSome = true →
       findCallable C (fun f => f.kind = .classOp ns ∧ f.name = name) = some f →
       evalStep C rec (.call (.classOp ns) name args) =
         handlerE C gen (domOf C u) rec (invNode C gen (domOf C u) rec [("key_letter", ns), ("action_name", name)] none args)
           accept_ClassInvocationNode) :=
   ⟨fun hb => ⟨bridge_call_eq C u rec ns name args f hb, implicit_bridge_call_eq C u rec ns name args f hb⟩,
    fun hne hcls hc => implicit_classOp_call_eq C u rec ns name args f hne hcls hc,
-   fun hnb hcls hc => class_call_eq C u rec ns name args f hnb hcls hc⟩
+   fun hcls hc => class_call_eq C u rec ns name args f hcls hc⟩
 
 /-- `h.op(args)`: the handle, then the operation fetched from THE HANDLE'S CLASS, then the parameters, then `op(inst, **kwargs)`:
     mk_operation's instance-based lambda hands the instance to run_operation as `self` — found or not, for every handle value
@@ -674,6 +679,164 @@ example : valOfR (handlerE C1 gen (domOf C1 noU) (run C1 0)
       [⟨12, "blue", 11⟩, ⟨10, "red", 0⟩, ⟨11, "green", 10⟩] = ["blue", "green", "red"] ∧
     iConst mk_constant "integer" "42" = some (.int 42) ∧
     iConst [("boolean", .lowerIsTrue), ("integer", .str)] "integer" "42" = some (.str "42") := by
+  decide +kernel
+
+end PyxProps.C15
+
+/-! ==========================================================================================================
+  SOURCE TIE OF THE CALL PATH, ROUND 2 (builder call-shape) — appended section (helper lemmas: Proofs/CallShapeMore.lean)
+  (1) the NOT-FOUND side with the source's own fall-backs (`srcDom C`: the untyped dictionary as mk_component fills it — functions,
+  enumerations, constants, external entities, last registration wins — and find_class); (2) where `Spec` and the source resolve
+  `transform KL::op()` / `bridge EE::f()` differently: characterised, with witnesses; (3) both accept_FieldAccessNode handlers
+  and accept_InvocationStatementNode; (4) Domain.add_symbol / find_symbol for every registration order, mk_external_entity.
+  ========================================================================================================== -/
+namespace PyxProps.C15
+open Pyx.Interp Pyx.CShape Pyx.Gen.CallShape
+open Pyx.IShape (noMsg)
+
+/-- `::name(args)` WITHOUT a found hypothesis, against the domain as the source builds it: found — the function runs; not
+    found — the parameters are evaluated, then find_symbol falls back to the untyped dictionary (a constant / enumeration /
+    external entity of that name is not callable) and to the classes (none of that name: the exception).  Up to the error text. -/
+theorem function_call_total_as_in_source (C : Ctx) (rec : Oracle) (name : String) (args : List (String × Expr)) (c : Cfg)
+    (hcls : (findClass C name).isSome = false) :
+    noMsg (evalStep C rec (.call .function name args) c) =
+      noMsg (handlerE C gen (srcDom C) rec (invNode C gen (srcDom C) rec [("action_name", name)] none args)
+        accept_FunctionInvocationNode c) :=
+  function_call_total C rec name args c hcls
+
+/-- the hypothesis above is needed: a body that calls a function `::A()` which does not exist, in a model with a CLASS A, is an
+    error for `Spec` (outside the property's domain: the body refers to no model element) while the source finds the class
+    through find_class and CALLS it (observed on /repo: `x = ::A();` delivers a detached instance, `::A(n: 3)` a TypeError) -/
+theorem function_named_like_class_witness :
+    errOfR (evalStep C1 (run C1 3) (.call .function "A" []) cfg1) = some "unknown function A" ∧
+    errOfR (handlerE C1 gen (srcDom C1) (run C1 3) (invNode C1 gen (srcDom C1) (run C1 3) [("action_name", "A")] none [])
+      accept_FunctionInvocationNode cfg1) = some "OUTSIDE THE MODEL: the class A is called" := by
+  decide +kernel
+
+/-- `transform KL::op()`: the source asks find_symbol for the CLASS only.  `Spec` resolved it like `NS::op()` (`resolveNs`: a
+    bridge of an external entity KL first) until this tie was built; `resolveNs` picks the class operation EXACTLY when no
+    external entity with the class's key letters has a bridge `op` — so `Spec`'s clause now looks the class operation up
+    directly (and before the parameters, as the source does) -/
+theorem transform_resolution_iff_as_in_source (C : Ctx) (ns name : String) (f : Callable)
+    (hc : findCallable C (fun f => f.kind = .classOp ns ∧ f.name = name) = some f) :
+    resolveNs C ns name = findCallable C (fun f => f.kind = .classOp ns ∧ f.name = name) ↔
+      findCallable C (fun f => f.kind = .bridge ns ∧ f.name = name) = none :=
+  transform_resolution_iff C ns name f hc
+
+/-- the model that told the two apart: an external entity X with a bridge `f` (returns 1) and a class X with a class-based
+    operation `f` (returns 2); `transform v = X::f();` is 2 for the interpreted source and (now) for `Spec`; `NS::f()` written
+    `X::f()` is the bridge (1) for both; `resolveNs` alone would have said 1 for the transform -/
+def CX : Ctx :=
+  { classes := [⟨"X", []⟩],
+    callables := [⟨.bridge "X", "f", [.ret (some (.int 1))]⟩, ⟨.classOp "X", "f", [.ret (some (.int 2))]⟩] }
+theorem transform_prefers_class_witness :
+    valOfR (evalStep CX (run CX 4) (.call (.classOp "X") "f" []) cfg1) = some (.int 2) ∧
+    valOfR (handlerE CX gen (srcDom CX) (run CX 4)
+      (invNode CX gen (srcDom CX) (run CX 4) [("key_letter", "X"), ("action_name", "f")] none []) accept_ClassInvocationNode cfg1) =
+      some (.int 2) ∧
+    valOfR (evalStep CX (run CX 4) (.call (.implicit "X") "f" []) cfg1) = some (.int 1) ∧
+    (resolveNs CX "X" "f").map Callable.kind = some (.bridge "X") := by
+  decide +kernel
+
+/-- `bridge NS::op()` where NS is no external entity (and nothing else in the untyped dictionary) but a class: the source
+    falls back to find_class and runs the class-based operation — exactly `Spec`'s second choice; and a `transform KL::op()`
+    whose operation does not exist fails in the source BEFORE the parameters are evaluated, and in `Spec` too -/
+theorem keyword_forms_fall_back_as_in_source (C : Ctx) (rec : Oracle) (ns name : String) (args : List (String × Expr))
+    (f : Callable) (c : Cfg) :
+    (hasBridges C ns = false → untypedOf C ns = none → (findClass C ns).isSome = true →
+      findCallable C (fun f => f.kind = .classOp ns ∧ f.name = name) = some f →
+      evalStep C rec (.call (.bridge ns) name args) =
+        handlerE C gen (srcDom C) rec (invNode C gen (srcDom C) rec [("namespace", ns), ("action_name", name)] none args)
+          accept_BridgeInvocationNode) ∧
+    ((findClass C ns).isSome = true →
+      findCallable C (fun f => f.kind = .classOp ns ∧ f.name = name) = none →
+      findCallable C (fun f => f.kind = .instOp ns ∧ f.name = name) = none →
+      noMsg (evalStep C rec (.call (.classOp ns) name args) c) =
+        noMsg (handlerE C gen (srcDom C) rec (invNode C gen (srcDom C) rec [("key_letter", ns), ("action_name", name)] none args)
+          accept_ClassInvocationNode c)) :=
+  ⟨fun h1 h2 h3 h4 => bridge_falls_back_to_class_eq C rec ns name args f h1 h2 h3 h4,
+   fun h2 h3 h4 => class_call_not_found_eq C rec ns name args c h2 h3 h4⟩
+
+/-- attribute access: outside derived attributes ActionWalker.accept_FieldAccessNode builds the property over the attribute of
+    the handle's instance (getter: the property mk_derived_attribute made, else the stored attribute; setter alike); inside the
+    derived attribute `a` of `si` DerivedAttributeWalker.accept_FieldAccessNode makes `self.a` — same name AND same instance —
+    the walker's return_value register, read and written, and every other access the attribute (`regHit`).  `hfr`: evaluating
+    the handle leaves the frame alone (`call_isolated`, for every `run C n`). -/
+theorem field_access_as_in_source (C : Ctx) (D : Dom) (rec : Oracle) (h : Expr) (name : String) (v : Val) (c : Cfg)
+    (hfr : ∀ v c1, rec.eval h c = some (.ok (v, c1)) → c1.fr = c.fr) :
+    ((∀ si a, c.fr.kind ≠ .derived si a) →
+      evalStep C rec (.field h name) c =
+        (do let l ← handlerP C gen D rec (fieldNode rec h name) accept_FieldAccessNode
+            fgetP C gen rec l) c ∧
+      (do let hv ← rec.eval h
+          let i ← asInst hv
+          writeField C i name v) c =
+        (do let l ← handlerP C gen D rec (fieldNode rec h name) accept_FieldAccessNode
+            fsetP C l v) c) ∧
+    (∀ si a, c.fr.kind = .derived si a → c.fr.self = .inst si →
+      evalStep C rec (.field h name) c =
+        (do let l ← handlerP C gen D rec (fieldNode rec h name) DerivedAttributeWalker_accept_FieldAccessNode
+            fgetP C gen rec l) c ∧
+      (do let hv ← rec.eval h
+          let i ← asInst hv
+          writeField C i name v) c =
+        (do let l ← handlerP C gen D rec (fieldNode rec h name) DerivedAttributeWalker_accept_FieldAccessNode
+            fsetP C l v) c) :=
+  ⟨fun hk => ⟨field_read_eq C D rec h name c hk hfr, field_write_eq C D rec h name v c hk hfr⟩,
+   fun si a hk hs => ⟨field_read_derived_eq C D rec h name c si a hk hs hfr, field_write_derived_eq C D rec h name v c si a hk hs hfr⟩⟩
+
+/-- an invocation used as a statement: accept_InvocationStatementNode hands the invocation's property on, nothing is stored -/
+theorem invocation_statement_as_in_source (C : Ctx) (P : Parts) (D : Dom) (rec : Oracle) (e : Expr) :
+    execStep C rec (.invoke e) = (do
+      let _ ← handlerE C P D rec { acceptE := fun f => if f = "invocation" then some (rec.eval e) else none }
+        accept_InvocationStatementNode
+      pure .normal) :=
+  invocation_statement_eq C P D rec e
+
+/-- the kind-qualified second dictionary, over the generated DomainShape, for EVERY list of registrations in EVERY order: what
+    `find_symbol(name, k)` delivers is the symbol registered last under (k, name) — registrations of the same name under other
+    kinds (a constant, an enumeration, an external entity and a function of one name) or without a kind never hide it; and
+    mk_external_entity: `getattr(ee, name)` is the bridge of that name made by mk_bridge (names and functions come from the same
+    query, so field positions and values line up) -/
+theorem kinds_do_not_hide_as_in_source (regs : List Reg) (k name : String) (r : Reg) (ks : List String) (C : Ctx) (ns : String)
+    (h : regs.reverse.find? (fun r => decide (r.kind = some k ∧ r.name = name)) = some r) :
+    (∃ s, iFind domain (regAll domain regs) name (k :: ks) = some s ∧ (regAll domain regs).byKind k name = some s) ∧
+    (regAll domain regs).byKind k name = some r.sym ∧
+    eeGetattr mk_external_entity (bridgesOf C ns) name =
+      (findCallable C (fun f => f.kind = .bridge ns ∧ f.name = name)).map (fun f => (⟨mk_bridge, f, none⟩ : Callee)) := by
+  refine ⟨find_symbol_by_kind regs k name r h ks, ?_, ee_getattr_eq C ns name⟩
+  rw [regAll_byKind, h]; rfl
+
+/-- four symbols of ONE name, registered in one order and in the reverse order: each kind finds its own; without a kind the
+    last registered wins (the documented behaviour of the untyped dictionary) -/
+def symTag : Option Sym → String
+  | some (.fn _) => "function" | some (.ee _) => "external entity" | some (.cls _) => "class" | some (.enum _) => "enumeration"
+  | some (.const _) => "constant" | none => "nothing"
+def regsX : List Reg :=
+  [⟨"X", .const (.int 1), some "constant"⟩, ⟨"X", .ee "X", some "external entity"⟩, ⟨"X", .enum ⟨"X", []⟩, some "enumeration"⟩,
+   ⟨"X", .fn ⟨.function, "X", []⟩, some "function"⟩]
+example : (["function", "constant", "enumeration", "external entity"].map
+      (fun k => symTag (iFind domain (regAll domain regsX) "X" [k]))) =
+      ["function", "constant", "enumeration", "external entity"] ∧
+    (["function", "constant", "enumeration", "external entity"].map
+      (fun k => symTag (iFind domain (regAll domain regsX.reverse) "X" [k]))) =
+      ["function", "constant", "enumeration", "external entity"] ∧
+    symTag (iFind domain (regAll domain regsX) "X" []) = "function" ∧
+    symTag (iFind domain (regAll domain regsX.reverse) "X" []) = "constant" ∧
+    -- a shape WITHOUT the second dictionary (the code before dc771e3): the function hides the three others
+    symTag (iFind { domain with addByKindIfKind := false } (regAll { domain with addByKindIfKind := false } regsX) "X" ["constant"]) =
+      "function" := by
+  decide +kernel
+
+/-- the theorems applied: `self.twice` inside the derived attribute `twice` of A[0] is the register (7), `self.n` the attribute -/
+def cfgD : Cfg := { fr := { mkFrame (.derived ⟨"A", 0⟩ "twice") [] (.inst ⟨"A", 0⟩) with ret := .int 7 }, st := st1 }
+def readVia (n : Nat) (handler : List CStmt) (name : String) : M Val := do
+  let l ← handlerP C1 gen (srcDom C1) (run C1 n) (fieldNode (run C1 n) .self name) handler
+  fgetP C1 gen (run C1 n) l
+example : valOfR (readVia 2 DerivedAttributeWalker_accept_FieldAccessNode "twice" cfgD) = some (.int 7) ∧
+    valOfR (readVia 2 DerivedAttributeWalker_accept_FieldAccessNode "n" cfgD) = some (.int 3) ∧
+    -- the base class's handler instead (no register test): `self.twice` runs the derived attribute again: 2 * 3
+    valOfR (readVia 8 accept_FieldAccessNode "twice" cfgD) = some (.int 6) := by
   decide +kernel
 
 end PyxProps.C15
